@@ -156,7 +156,7 @@ impl crux_core::App for App {
                     match op {
                         TOp::Now => cmds.push(TCmd::now().then_send(|_| Event::Got('n'))),
                         TOp::After(n) => {
-                            let (b, h) = TCmd::notify_after(crux_time::Duration::new(n));
+                            let (b, h) = TCmd::notify_after(Duration::from_nanos(n));
                             model.handles.push(h);
                             cmds.push(b.then_send(|o| Event::Got(if matches!(o, TimerOutcome::Completed(_)) { 'e' } else { 'c' })));
                         }
@@ -741,7 +741,7 @@ fn gen_hdr(seed: u64, n: usize) {
             .map(|_| {
                 let name = if r.chance(1, 8) { rand_text(&mut r, &"abcXYZ-09".chars().collect::<Vec<_>>(), 6) } else { r.pick(&NAMES).to_string() };
                 let nv = *r.pick(&[1usize, 1, 1, 2, 3, 0]);
-                let vs: Vec<String> = (0..nv).map(|_| hx(r.pick(&VALUES))).collect();
+                let vs: Vec<String> = (0..nv).map(|_| hx(*r.pick(&VALUES))).collect();
                 format!("h:{}:{}", hx(&name), if vs.is_empty() { "_".into() } else { vs.join(",") })
             })
             .collect();
@@ -771,8 +771,8 @@ fn rand_resp_desc(r: &mut Rng, max_names: usize) -> String {
     let hs: Vec<String> = (0..nh)
         .map(|_| {
             let nv = *r.pick(&[1usize, 1, 1, 2]);
-            let vs: Vec<String> = (0..nv).map(|_| hx(r.pick(&["a", "b", "", "text/plain"]))).collect();
-            format!("{}={}", hx(r.pick(&pool)), vs.join("+"))
+            let vs: Vec<String> = (0..nv).map(|_| hx(*r.pick(&["a", "b", "", "text/plain"]))).collect();
+            format!("{}={}", hx(*r.pick(&pool)), vs.join("+"))
         })
         .collect();
     let body = match r.below(4) {
@@ -809,27 +809,27 @@ fn tweak(r: &mut Rng, tok: &str) -> String {
 }
 
 fn rand_val(r: &mut Rng, kind: &str) -> String {
-    let s = |r: &mut Rng| hx(r.pick(&["", "a", "k é", "key", "x/y"]));
-    let b = |r: &mut Rng| to_hex(r.pick(&[vec![], vec![0u8], vec![255, 0], b"abc".to_vec()]));
+    let s = |r: &mut Rng| hx(*r.pick(&["", "a", "k é", "key", "x/y"]));
+    let b = |r: &mut Rng| r.pick(&["-", "00", "ff00", "616263"]).to_string();
     let hs = |r: &mut Rng| {
         let n = r.below(3);
         if n == 0 {
             "_".to_string()
         } else {
-            (0..n).map(|_| format!("{}={}", hx(r.pick(&["a", "A", "x-b"])), hx(r.pick(&["", "1", "v"])))).collect::<Vec<_>>().join(",")
+            (0..n).map(|_| format!("{}={}", hx(*r.pick(&["a", "A", "x-b"])), hx(*r.pick(&["", "1", "v"])))).collect::<Vec<_>>().join(",")
         }
     };
     let herr = |r: &mut Rng| match r.below(5) {
-        0 => format!("url:{}", hx(r.pick(&["", "bad"]))),
-        1 => format!("io:{}", hx(r.pick(&["", "bad"]))),
+        0 => format!("url:{}", hx(*r.pick(&["", "bad"]))),
+        1 => format!("io:{}", hx(*r.pick(&["", "bad"]))),
         2 => "timeout".to_string(),
-        3 => format!("json:{}", hx(r.pick(&["", "bad"]))),
-        _ => format!("http:{}:{}:{}", r.pick(&[400u16, 404, 500]), hx(r.pick(&["", "m"])), r.pick(&["none", "-", "61"])),
+        3 => format!("json:{}", hx(*r.pick(&["", "bad"]))),
+        _ => format!("http:{}:{}:{}", r.pick(&[400u16, 404, 500]), hx(*r.pick(&["", "m"])), r.pick(&["none", "-", "61"])),
     };
     let kvv = |r: &mut Rng| r.pick(&["none", "-", "00", "6162"]).to_string();
     match kind {
-        "httpreq" => format!("{}:{}:{}:{}", r.pick(&["GET", "POST"]), hx(r.pick(&["https://a/", "https://b/"])), hs(r), b(r)),
-        "httpheader" => format!("{}={}", hx(r.pick(&["a", "A", "b"])), hx(r.pick(&["", "1", "v"]))),
+        "httpreq" => format!("{}:{}:{}:{}", r.pick(&["GET", "POST"]), hx(*r.pick(&["https://a/", "https://b/"])), hs(r), b(r)),
+        "httpheader" => format!("{}={}", hx(*r.pick(&["a", "A", "b"])), hx(*r.pick(&["", "1", "v"]))),
         "httperr" => herr(r),
         "httpresult" => {
             if r.chance(1, 2) {
@@ -895,6 +895,7 @@ fn gen_eq(seed: u64, n: usize) {
                 }
                 _ => b,
             };
+            let b = if parse_resp_desc(&b).is_some() { b } else { a.clone() };
             writeln!(out, "eq resp {a} {b}").unwrap();
         } else {
             let kind = kinds[(i / 2) % kinds.len()];
@@ -904,6 +905,8 @@ fn gen_eq(seed: u64, n: usize) {
                 2 => tweak(&mut r, &a),
                 _ => rand_val(&mut r, kind),
             };
+            // a tweak may leave the grammar (a hex field that looked like a number): fall back to a fresh value
+            let b = if eval_eq(kind, &b, &b).is_some() { b } else { rand_val(&mut r, kind) };
             writeln!(out, "eq {kind} {a} {b}").unwrap();
         }
     }
@@ -928,7 +931,15 @@ fn gen_tid(seed: u64, n: usize) {
 }
 
 fn gen_rt(seed: u64, n: usize) {
-    println!("rtrep {seed} {n}");
+    // batches of 500 programs, each batch with its own generator seed
+    let mut left = n;
+    let mut k = 0;
+    while left > 0 {
+        let m = left.min(500);
+        println!("rtrep {} {m}", seed + 1000 * k);
+        left -= m;
+        k += 1;
+    }
 }
 
 fn main() {
